@@ -47,6 +47,7 @@ class ExprMixin:
             a2 = z3.ForAll([s_, x], z3.Implies(z3.Select(f(s_), x), z3.And(0 <= w(s_, x), w(s_, x) < sty.len(s_), z3.Select(sty.arr(s_), w(s_, x)) == x)),
                            patterns=[z3.Select(f(s_), x)])
             self.axioms.extend([a1, a2])
+            self.heavy_ids.add(a2.get_id())
             self._seqset[key] = (f, w)
         return self._seqset[key][0]
 
@@ -188,6 +189,10 @@ class ExprMixin:
         return v
 
     def select(self, st, v, kind, s, node):
+        if isinstance(v.ty, T.Opt) and isinstance(v.ty.inner, (T.Seq, T.Map, T.Rec)):
+            if node is not None:
+                self.check(st, v.ty.is_some(v.t), "none-deref", node)
+            v = SV(v.ty.val(v.t), v.ty.inner)
         ty = v.ty
         if kind == "field":
             if isinstance(ty, T.Rec):
@@ -338,6 +343,9 @@ class ExprMixin:
             raise Unsupported(f"expression {type(node).__name__}: {ast.unparse(node)}")
         v = m(node, st, want)
         if want is not None and isinstance(v, SV) and v.ty != want:
+            if want == T.Bool:
+                # a local declared Bool in the contract is only ever used for its truth value
+                return SV(self.truthy(v), T.Bool)
             v = self.coerce(v, want, st, node)
         return v
 
@@ -560,6 +568,8 @@ class ExprMixin:
         raise Unsupported(ast.dump(op))
 
     def contains(self, cont, x, st, node):
+        if isinstance(cont.ty, T.Opt):
+            cont = self.unwrap(cont, st, node)
         ty = cont.ty
         if isinstance(ty, T.Set):
             return z3.Select(cont.t, self.coerce(x, ty.elem).t)
@@ -639,6 +649,29 @@ class ExprMixin:
     EPS = z3.RealVal("1/9007199254740992")  # 2**-53: unit round-off of IEEE double, round-to-nearest
     BIG = z3.RealVal(2 ** 53)
 
+    def fresh_q(self, sort, hint):
+        """Fresh value; inside a comprehension a Skolem function of the bound variables."""
+        qs = [v for vs, _ in self.qscope for v in vs]
+        if qs:
+            f = z3.Function(fresh_name(hint), *[v.sort() for v in qs], sort)
+            return f(*qs)
+        return z3.Const(fresh_name(hint), sort)
+
+    def assume_q(self, st, fact, pattern=None):
+        qs = [v for vs, _ in self.qscope for v in vs]
+        if qs:
+            guard = z3.And(*[g for _, g in self.qscope])
+            st.assume(z3.ForAll(qs, z3.Implies(guard, fact), patterns=[pattern] if pattern is not None else []))
+        else:
+            st.assume(fact)
+
+    def unwrap(self, sv, st, node):
+        """Optional[T] used where a T is needed: none-deref obligation, then the payload."""
+        if isinstance(sv.ty, T.Opt):
+            self.check(st, sv.ty.is_some(sv.t), "none-deref", node)
+            return SV(sv.ty.val(sv.t), sv.ty.inner)
+        return sv
+
     def float_round(self, st, exact, hint="fl"):
         """IEEE-754 double rounding, abstracted: |r - x| <= 2**-53 * |x|, exact when x is an integer of
         magnitude <= 2**53 (those are representable), sign preserved.  Overflow/underflow/NaN excluded
@@ -698,6 +731,8 @@ class ExprMixin:
 
     def ev_Subscript(self, node, st, want):
         base = self.ev(node.value, st)
+        if isinstance(base, SV) and isinstance(base.ty, T.Opt) and isinstance(base.ty.inner, (T.Seq, T.Map)):
+            base = self.unwrap(base, st, node)
         if isinstance(node.slice, ast.Slice):
             return self.seq_slice(base, node.slice, st, node)
         if isinstance(base.ty, T.Rec) and isinstance(node.slice, ast.Constant) and isinstance(node.slice.value, str):
@@ -814,6 +849,8 @@ class ExprMixin:
             g = z3.And(0 <= v, *[v < s.ty.len(s.t) for s in ss])
             return [v], g, binds, ("zip", ss)
         s = self.ev(it, st)
+        if isinstance(s.ty, T.Opt):
+            s = self.unwrap(s, st, it)
         if isinstance(s.ty, T.Seq):
             v = z3.Int(fresh_name("q"))
             self.bind_target(gen.target, SV(z3.Select(s.ty.arr(s.t), v), s.ty.elem), binds)
